@@ -6,7 +6,7 @@ from typing import Dict, List, Optional, Set
 
 from ..absint import Interp
 from ..effects import STATE_ATTRS, Effect, function_effects, self_callees, state_writes
-from ..fieldloop import field_loop_roles, interp_for
+from ..fieldloop import field_loop_roles, interp_for, val_text
 from ..src import AnalysisError, M_INIT
 from ..sym import A, C, N, dotted, from_ast, show, walk as _walk
 from . import presence
@@ -434,7 +434,52 @@ def rule_V9(ctx) -> None:
             ctx.proved("V9", cname, mod.loc(fn), "the children's flags are put back after construction")
 
 
+def rule_V10(ctx, rule: str = "V10") -> None:
+    """Message.__eq__ decides by the fields' values only: it says "equal" only after the field loop (or for the very same object),
+    and when exactly one side of a field is unset it builds that field's default and compares with it - presence flags and the
+    truthiness of the set value say nothing about equality with the default (an epoch datetime is truthy, a child filled in place
+    has a clear flag)"""
+    mod = ctx.repo.mod(M_INIT)
+    fn = mod.func("Message.__eq__")
+    ctx.analysed("Message.__eq__")
+    paths = Interp(mod, fork_ifexp=True).run(fn)
+    ctx.count(len(paths))
+    early = None
+    no_default = None
+    n_one_sided = 0
+    for p in paths:
+        if p.outcome != "return" or p.value is None:
+            continue
+        looped = any(e.kind == "loop" for e in p.events)
+        same = any(k[0] == "op" and k[1] == "is" and set(k[2:]) == {N("self"), N(fn.args.args[1].arg)} and v for k, v in p.valuation.items())
+        if p.value == C(True) and not looped and not same:
+            early = early or p
+        ph = [(k, v) for k, v in p.valuation.items() if k[0] == "op" and k[1] == "is" and len(k) == 4 and k[3] == N("PLACEHOLDER")]
+        unset = [k for k, v in ph if v]
+        setv = [k for k, v in ph if not v]
+        if looped and len(unset) == 1 and len(setv) == 1:
+            n_one_sided += 1
+            built = any(e.kind == "call" and dotted(e.data[1]).endswith("_get_field_default") for e in p.events)
+            if not built:
+                no_default = no_default or p
+    name = "__eq__:by-field-values"
+    if early:
+        ctx.refuted(rule, name, "equal-without-comparing", mod.loc(fn), f"__eq__ returns True before any field was compared, on {val_text(early.valuation)}: two messages are declared equal on "
+                    "something other than their fields (a sub-message filled in place has a clear presence flag and still differs from a fresh default: dump would skip it)",
+                    "m.sub.inner.x = 1; bytes(m)")
+    elif no_default:
+        ctx.refuted(rule, name, "unset-vs-set-without-default", mod.loc(fn), f"with one side of a field unset, __eq__ decides on {val_text(no_default.valuation)} without building the field's default: "
+                    "whether the set value equals the default is not a question of its truthiness (datetime(1970, 1, 1, tzinfo=utc) is truthy and is the default of a Timestamp field)",
+                    "pickle.loads(pickle.dumps(M(at=epoch))) == M(at=epoch)")
+    elif n_one_sided == 0:
+        ctx.inconclusive(rule, name, "no path on which exactly one side of a field is unset", mod.loc(fn))
+    else:
+        ctx.proved(rule, name, mod.loc(fn), f"{len(paths)} paths, {n_one_sided} one-sided ones compare with the default")
+
+
 def run(ctx) -> None:
+    ctx.rules_run.append("V10")
+    rule_V10(ctx)
     for name, fn in (("V9", rule_V9), ("V1", rule_V1), ("V1b", rule_V1b), ("V2", rule_V2), ("V3", rule_V3), ("V4", rule_V4), ("V5", rule_V5), ("V6", rule_V6), ("D3", presence.rule_D3), ("V7", presence.rule_V7), ("V8", rule_V8)):
         ctx.rules_run.append(name)
         fn(ctx)
